@@ -67,6 +67,13 @@ def iterEnds (f : Nat → List Nat) : Nat → List Nat → List Nat
   | 0, cur => cur
   | k + 1, cur => iterEnds f k (stepEnds f cur)
 
+/-- Ends of a repetition: positions reached by `k` iterations for `min ≤ k ≤ max`; for an unbounded
+repetition `len + 1` further iterations reach everything (iterations that do not advance add nothing). -/
+def repEnds (f : Nat → List Nat) (min : Nat) (max : Option Nat) (len s : Nat) : List Nat :=
+  match max with
+  | some m => if min ≤ m then dedupNat (repCollect f (m - min) (iterEnds f min [s])) else []
+  | none => dedupNat (repCollect f (len + 1) (iterEnds f min [s]))
+
 mutual
 /-- All `e` such that `Matches lk h hay s e` (for `s ≤ hay.length`). -/
 def ends (lk : LookFn) : Hir → Bytes → Nat → List Nat
@@ -79,15 +86,7 @@ def ends (lk : LookFn) : Hir → Bytes → Nat → List Nat
   | .classU rs, hay, s => endsClassU rs hay s
   | .look k, hay, s => if s ≤ hay.length && lk k hay s then [s] else []
   | .rep min max _ sub, hay, s =>
-    if s ≤ hay.length then
-      let f := fun p => ends lk sub hay p
-      let start := iterEnds f min [s]
-      -- unbounded: `hay.length + 1` further iterations reach everything (empty iterations add nothing new)
-      let extra := match max with
-        | some m => m - min
-        | none => hay.length + 1
-      if (match max with | some m => decide (min ≤ m) | none => true) then dedupNat (repCollect f extra start) else []
-    else []
+    if s ≤ hay.length then repEnds (fun p => ends lk sub hay p) min max hay.length s else []
   | .cap _ sub, hay, s => ends lk sub hay s
   | .concat xs, hay, s => endsSeq lk xs hay [s]
   | .alt xs, hay, s => dedupNat (endsAny lk xs hay s)
